@@ -89,7 +89,7 @@ def templates(tier, seed):
         for kind in ("int", "float", "str"):
             ts.append(Template(f"series/{kind}/N={N}", t_inf, ("series", [kind], N, False)))
     for N in ((1, 2) if tier == "quick" else (1, 2, 3)):
-        for shape in ("mi", "mi_filtered"):
+        for shape in ("mi", "mi_filtered", "mi_emptyname"):
             ts.append(Template(f"{shape}/float/N={N}", t_inf, (shape, ["float"], N, True)))
     for N in ((2, 3) if tier == "quick" else (1, 2, 3, 4)):
         for shape in ("frame_default_index", "frame_reversed"):
